@@ -13,6 +13,8 @@ NO = ("helpers,node", "seq")
 TR = ("helpers,node,trie", "abstract")
 LK = ("helpers,node,link", "seq")
 FA = ("helpers,node,trie,facade", "abstract")
+LA = ("helpers,ladder", "abstract")
+LB = ("helpers,prefixes", "abstract")
 
 STORAGE_FNS = [
     "MemoryStorage.__len__",
@@ -43,7 +45,9 @@ def node(names):
 
 
 NODE_RW = [T(NO, "LRUTrieNode.read", 2), T(NO, "LRUTrieNode.write", 8), T(NO, "LRUTrieNode.set_stem")]
-CHUNKS = [T(HE, "detailed_chunks_iter", 4)]
+CHUNKS = [T(HE, "detailed_chunks_iter", 4), T(HE, "chunks_iter")]
+LRU_ITER = [T(HE, "lru_iter", 4)]
+LRU_DIRNAME = [T(HE, "lru_dirname")]
 ENSURE = [T(TR, "LRUTrie.__ensure_stem_from_siblings", 8)]
 # add_lru: the whole function in the thorough tier (7 min); in the quick tier the
 # obligations of its descending loop (entry and preservation of every invariant clause
@@ -51,7 +55,7 @@ ENSURE = [T(TR, "LRUTrie.__ensure_stem_from_siblings", 8)]
 ADD_LRU = [T(TR, "LRUTrie.add_lru", 16, "thorough"), T(TR, "LRUTrie.add_lru", 16, "quick-only", only="while#0:")]
 # C13 also needs the hand-over to the child-creation loop (where the last existing
 # ancestor must already be unmarked)
-ADD_LRU_C13 = [T(TR, "LRUTrie.add_lru", 16, "thorough"), T(TR, "LRUTrie.add_lru", 16, "quick-only", only="while#0:|while#1:entry")]
+ADD_LRU_C13 = [T(TR, "LRUTrie.add_lru", 16, "thorough"), T(TR, "LRUTrie.add_lru", 16, "quick-only", only="while#0:|while#1:entry:flagging")]
 STORAGE = [T(ST, f, 2 if f.endswith(".write") else 1) for f in STORAGE_FNS]
 LINK_NODE = [T(LK, "LinkStoreNode." + n) for n in ("has_previous", "previous", "has_target", "target", "set_previous", "set_target", "read")]
 ADD_LINKS = [T(LK, "LinkStore.add_links", 8)]
@@ -64,29 +68,35 @@ RESOLVE = [T(FA, "Traph.retrieve_webentity"), T(FA, "Traph.retrieve_prefix")]
 READERS = [T(TR, "LRUTrie.lru_node", 16), T(TR, "LRUTrie.follow_lru", 16)]
 WINDUP = [T(TR, "LRUTrie.windup_lru", 2)]
 COUNTS = [T(TR, "LRUTrie.count_pages"), T(TR, "LRUTrie.count_crawled_pages")]
-DFS = [T(TR, "LRUTrie.dfs_iter", 2), T(TR, "LRUTrie.pages_iter", 2)]
-REALM = [T(TR, "LRUTrie.webentity_dfs_iter", 4)]
+DFS = [T(TR, "LRUTrie.dfs_iter", 2), T(TR, "LRUTrie.pages_iter", 2)] + LRU_DIRNAME
+REALM = [T(TR, "LRUTrie.webentity_dfs_iter", 4)] + LRU_DIRNAME
+# the automatic-creation ladder, verified against the contracts of what it calls
+LADDER = [T(LA, "Traph.__add_page"), T(LA, "Traph.__create_webentity")]
+ADD_PAGES = [T(LA, "Traph.add_page"), T(LA, "Traph.add_pages")]
+# explicit creation: the scan / attach loops of __add_prefixes against the contracts of add_lru, the node protocol and the id generator
+PREFIXES = [T(LB, "Traph.__add_prefixes"), T(LB, "Traph.create_webentity")]
+LINK_WRAPPERS = [T(LA, "LinkStore.add_outlinks"), T(LA, "LinkStore.add_inlinks")]
 
 DEDUCTIVE = {
-    "C01": node(["is_page", "is_crawled", "flag_as_page", "flag_as_crawled", "unflag_as_page", "unflag_as_crawled"]) + CHUNKS + NODE_RW[:2] + ENSURE + ADD_PAGE + COUNTS + DFS + ADD_LRU,
-    "C02": STORAGE[2:4] + STORAGE[6:9] + CHUNKS + NODE_RW + node(["stem", "left", "right", "child", "has_left", "has_right", "has_child", "set_left", "set_right", "set_child", "set_parent"]) + ENSURE + READERS + WINDUP + DFS + ADD_LRU,
-    "C03": node(["has_outlinks", "outlinks", "has_inlinks", "inlinks", "set_outlinks", "set_inlinks"]) + NODE_RW[:2] + LINK_NODE + ADD_LINKS + WALKS + COUNT_LINKS,
-    "C04": node(["has_webentity", "webentity", "set_webentity", "unset_webentity"]) + NODE_RW[:2] + EDITS + READERS[1:] + RESOLVE,
-    "C05": node(["has_webentity", "is_page", "is_crawled", "has_child", "child", "has_left", "has_right"]) + READERS[:1] + REALM,
-    "C06": node(["has_webentity_creation_rule", "flag_as_webentity_creation_rule", "unflag_as_webentity_creation_rule"]) + READERS[1:] + [T(HE, "LRUTrieWalkHistory.rules_to_apply")],
+    "C01": node(["is_page", "is_crawled", "flag_as_page", "flag_as_crawled", "unflag_as_page", "unflag_as_crawled"]) + CHUNKS + NODE_RW + ENSURE + ADD_PAGE + COUNTS + DFS + LADDER[:1] + ADD_PAGES + ADD_LRU,
+    "C02": STORAGE[2:4] + STORAGE[6:9] + CHUNKS + NODE_RW + node(["stem", "left", "right", "child", "has_left", "has_right", "has_child", "set_left", "set_right", "set_child", "set_parent"]) + ENSURE + LRU_ITER + READERS + WINDUP + DFS + ADD_LRU,
+    "C03": node(["has_outlinks", "outlinks", "has_inlinks", "inlinks", "set_outlinks", "set_inlinks"]) + NODE_RW[:2] + LINK_NODE + ADD_LINKS + LINK_WRAPPERS + WALKS + COUNT_LINKS,
+    "C04": node(["has_webentity", "webentity", "set_webentity", "unset_webentity"]) + NODE_RW[:2] + EDITS + LRU_ITER + READERS[1:] + RESOLVE + LADDER[:1] + PREFIXES,
+    "C05": node(["has_webentity", "is_page", "is_crawled", "has_child", "child", "has_left", "has_right"]) + READERS[:1] + REALM + LADDER[:1],
+    "C06": node(["has_webentity_creation_rule", "flag_as_webentity_creation_rule", "unflag_as_webentity_creation_rule"]) + READERS[1:] + [T(HE, "LRUTrieWalkHistory.rules_to_apply")] + LADDER,
     "C07": node(["has_webentity", "webentity", "has_parent", "parent"]) + LINK_NODE + WALKS + [T(TR, "LRUTrie.dfs_with_webentity_iter", 2), T(TR, "LRUTrie.windup_lru_for_webentity", 2)],
     "C08": node(["has_outlinks", "has_inlinks", "outlinks", "inlinks"]) + LINK_NODE + WALKS + [T(TR, "LRUTrie.windup_lru_for_webentity", 2)] + WINDUP,
-    "C09": [T(HE, "base4_append")],
+    "C09": [T(HE, "base4_append")] + LRU_DIRNAME,
     "C10": node(["has_outlinks", "outlinks", "is_page"]),
     "C11": STORAGE + IDS[1:],
-    "C12": IDS,
-    "C13": node(["can_have_child_webentities", "flag_can_have_child_webentities", "has_parent", "parent"]) + ENSURE + EDITS + DFS[:1] + ADD_LRU_C13,
+    "C12": IDS + PREFIXES,
+    "C13": node(["can_have_child_webentities", "flag_can_have_child_webentities", "has_parent", "parent"]) + ENSURE + EDITS + DFS[:1] + LADDER[:1] + PREFIXES[:1] + ADD_LRU_C13,
     "C14": [T(ST, f) for f in ("MemoryStorage.read", "FileStorage.read", "MemMapStorage.read", "MemoryStorage.__len__", "FileStorage.__len__", "FileStorage.check_for_corruption")] + [T(NO, "LRUTrieNode.read", 2)] + node(NODE_ACCESSORS) + READERS,
     "C15": STORAGE + [T(NO, "LRUTrieNode.read", 2)],
     "C16": NODE_RW[:2] + ADD_LINKS,
-    "C17": [T(HE, "https_variation"), T(HE, "lru_variations")],
+    "C17": [T(HE, "https_variation"), T(HE, "lru_variations")] + LADDER + PREFIXES[:1],
     "C18": [T(NO, "LRUTrieNode.read", 2), T(NO, "LRUTrieNode.write", 8), T(LK, "LinkStoreNode.read")] + ADD_LINKS + COUNTS + [T(ST, "FileStorage.check_for_corruption"), T(ST, "FileStorage.read"), T(ST, "FileStorage.write", 2)],
-    "C19": CHUNKS + [T(NO, "LRUTrieNode.write", 8), T(ST, "MemoryStorage.count_blocks"), T(ST, "FileStorage.count_blocks")] + ENSURE + ADD_LRU + ADD_LINKS + COUNT_LINKS,
+    "C19": CHUNKS + [T(NO, "LRUTrieNode.set_stem"), T(NO, "LRUTrieNode.write", 8), T(ST, "MemoryStorage.count_blocks"), T(ST, "FileStorage.count_blocks")] + ENSURE + LADDER[:1] + ADD_LRU + ADD_LINKS + COUNT_LINKS,
     "C20": node(["has_inlinks", "inlinks", "is_page"]) + LINK_NODE + WALKS + REALM,
 }
 
@@ -108,8 +118,8 @@ STATIC = {
     "C12": ["FR-ID", "FR-STATE"],
     "C13": ["TS", "FR-STATE"],
     "C14": ["FR-RO"],
-    "C15": ["FR-SHAPE"],
-    "C16": ["TS"],
+    "C15": ["FR-SHAPE", "FR-STATE"],
+    "C16": ["TS", "FR-STATE"],
 }
 
 ALL = ["C%02d" % i for i in range(1, 21)]
